@@ -705,7 +705,9 @@ func (g *gen) issueNFT(semi bool, count int) []byte {
 }
 
 // counterSeeds: values just below a nonce whose minimal encoding grows by a byte / ends in a zero byte.
-var counterSeeds = []uint64{254, 255, 65534, 65535, 1<<32 - 2}
+// The high ones make the next nonces cross 2^63 (a signed conversion would go negative) and come close to 2^64 (never
+// reaching the wrap: that would take a thousand more creates of the same token).
+var counterSeeds = []uint64{254, 255, 65534, 65535, 1<<32 - 2, 1<<63 - 2, 1<<63 - 1, 1<<63 + 5, 1<<64 - 1000}
 
 // jumpCounter pre-seeds the creator's counter (raw) to a value above every issued nonce, so that the
 // next creates cross 256 / 65536 / 2^32 while the low nonces 1, 2, … are still held.
